@@ -305,8 +305,24 @@ class _Split(_TrajMethod):
         t = a.self
         J = self._bounds(c)
         if J is None:
-            yield Clause("single_part_is_the_trajectory", c.And(len(res) == 1, res[0] is t) if isinstance(res, list)
-                         else False, role="prop", note="no gap: the partition has one part")
+            ok = isinstance(res, list) and len(res) == 1
+            yield Clause("single_part_when_nothing_to_split", ok, role="prop", note="no gap: the partition has one part")
+            if ok:
+                p0 = res[0]
+                same = []
+                v = tm.views(p0)
+                for f in self.fields:
+                    if f not in v or f not in old.self:
+                        same.append(False)
+                        continue
+                    ln, get, obj = v[f]
+                    n0, cell0, obj0 = old.self[f]
+                    same.append(ln == n0)
+                    same.append(c.forall(n0, lambda k, get=get, cell0=cell0: c.eq(get(k), cell0(k))))
+                yield Clause("the_single_part_reproduces_the_trajectory", c.And(*same), role="prop")
+                yield Clause("the_single_part_is_an_independent_object", p0 is not t and all(
+                    p0.__dict__.get(f) is not t.__dict__.get(f) for f in self.fields if f in t.__dict__), role="prop",
+                    props=["C11", "C16"])
             return
         for lab, cond in parts_clauses(c, res, J, old.self, old.n, self.fields):
             yield Clause(lab, cond, role="prop")
